@@ -27,21 +27,22 @@ type Order struct {
 }
 
 type ScanCase struct {
-	ID            string         `json:"id"`
-	G             model.Graph    `json:"g"`
-	Roots         []RootSpec     `json:"roots"`
-	Style         string         `json:"style"`
-	Names         map[int][]byte `json:"names,omitempty"`
-	Dates         []int64        `json:"dates,omitempty"`
-	Layout        string         `json:"layout,omitempty"` // loose packed packrefs both
-	OmitEmptyTree bool           `json:"omit_empty_tree,omitempty"`
-	Noise         bool           `json:"noise,omitempty"`
-	Args          []string       `json:"args,omitempty"`
-	Ord           *Order         `json:"ord,omitempty"`
-	Bare          bool           `json:"bare,omitempty"`
-	Extra         map[int]string `json:"extra_headers,omitempty"`
-	Family        string         `json:"family,omitempty"`
-	Gitconfig     string         `json:"gitconfig,omitempty"` // text appended to the repository's config file
+	ID             string         `json:"id"`
+	G              model.Graph    `json:"g"`
+	Roots          []RootSpec     `json:"roots"`
+	Style          string         `json:"style"`
+	Names          map[int][]byte `json:"names,omitempty"`
+	Dates          []int64        `json:"dates,omitempty"`
+	Layout         string         `json:"layout,omitempty"` // loose packed packrefs both
+	OmitEmptyTree  bool           `json:"omit_empty_tree,omitempty"`
+	Noise          bool           `json:"noise,omitempty"`
+	Args           []string       `json:"args,omitempty"`
+	Ord            *Order         `json:"ord,omitempty"`
+	Bare           bool           `json:"bare,omitempty"`
+	Extra          map[int]string `json:"extra_headers,omitempty"`
+	Family         string         `json:"family,omitempty"`
+	Gitconfig      string         `json:"gitconfig,omitempty"`        // text appended to the repository's config file
+	StyleViaConfig bool           `json:"style_via_config,omitempty"` // the name style is set as sizer.names in the repository's config, no --names option
 }
 
 // ApiResult is what cmd/apidrv returns for a scan case.
